@@ -182,7 +182,7 @@ func proj(v reflect.Value, keepZero bool, snap bool) interface{} {
 	return fmt.Sprintf("?%s", v.Kind())
 }
 
-func fmtFloat(f float64) string { return strconv.FormatFloat(f, 'f', -1, 64) }
+func fmtFloat(f float64) string { return strconv.FormatFloat(f, 'g', -1, 64) }
 
 // timeNs renders the instant as nanoseconds since the epoch, exactly, also outside
 // the int64 range (seconds*1e9 + nanos done in decimal).
